@@ -33,7 +33,12 @@ def check_shape(data, o):
         out.append(("hang|lexer-steps>2*len+16", {"steps": o.steps}))
         return out
     if o.exc == "CpuLimit":
-        out.append(("hang|more-than-8s-cpu-for-one-parse", {"steps": o.steps}))
+        out.append(("hang|more-than-3s-cpu-for-one-parse", {"steps": o.steps}))
+        return out
+    if o.exc == "CpuSlow":
+        out.append(("hang|more-than-0.2s-cpu-for-one-parse", {"cpu": o.exc_msg}))
+        return out
+    if o.exc == "Skipped":
         return out
     if o.exc is not None:
         out.append(("exception|" + o.exc, {"exc": o.exc_msg}))
